@@ -948,8 +948,12 @@ fn oracle(c: &Case, script: &[u8], obs: &Obs) -> String {
             return "FAIL:redirected-input-was-read-as-commands HD".into();
         }
     }
-    // a reported error (other than a command that was not found) is a syntax error: status 2
-    if obs.err && obs.status != 2 {
+    // a reported error (other than a command that was not found) is a syntax error: status 2 —
+    // unless it was met by an `eval` inside a subshell (only the subshell ends)
+    let in_subshell = script
+        .split(|&b| b == b'\n')
+        .any(|l| l.starts_with(b"(") && l.windows(9).any(|w| w == b"eval 'fi'"));
+    if obs.err && obs.status != 2 && !in_subshell {
         return "FAIL:error-reported-without-syntax-error-status".into();
     }
     if shared {
@@ -1365,7 +1369,12 @@ impl Gen {
         };
         let i1 = self.im();
         let i2 = self.im();
-        let head = match self.rng.below(16) {
+        let head = match self.rng.below(18) {
+            // a syntax error met by `eval` inside a twice-redirected group inside a subshell: the
+            // subshell ends there (its redirections are undone on the way out), the shell goes on
+            16 => format!("( {{ read {v}; eval 'fi'; probe {i1}; }} <<{d1} <<{d2}; probe {i2} )\n{b1}{d1}\n{b2}{d2}"),
+            // a redirection error on a special built-in ends the subshell
+            17 => format!("( : </nonexistent <<{d1}; probe {i1} )\n{b1}{d1}"),
             0 => format!("cat <<{d1} <<{d2}\n{b1}{d1}\n{b2}{d2}"),
             1 => format!("read {v} <<{d1} <<{d2}\n{b1}{d1}\n{b2}{d2}"),
             2 => format!("{{ read {v}; probe {i1} \"${v}\"; read {w}; probe {i2} \"${w}\" $?; }} <<{d1} <<{d2}\n{b1}{d1}\n{b2}{d2}"),
@@ -2016,7 +2025,11 @@ fn main() {
     // thin branches fed with a boundary at every byte position: here-documents split across reads,
     // line continuation at a chunk boundary, an alias whose replacement consumes the next line, end of
     // input inside a quote, NUL and invalid UTF-8 bytes in data and in script text
-    let edge_scripts: [&[&str]; 19] = [
+    let edge_scripts: [&[&str]; 22] = [
+        // a redirection error on a special built-in: the shell ends, nothing more is read
+        &["probe m1\n", "set -v </nonexistent\n", "probe never\n"],
+        &["{ : <<A </nonexistent; probe I1; } <<B\nh\nA\nprobe HD9 leaked\nB\n", "probe never\n"],
+        &["( eval 'fi' <<A <<B; probe I1 ) <<C\nh1\nA\nh2\nB\nh3\nC\nread v1\nnext\n", "probe X9 \"$v1\" $?\n"],
         // standard input redirected twice on one command: afterwards descriptor 0 is the script again
         &["cat <<A <<B\nprobe HD1 leaked\nA\nb1\nB\n", "probe X1 $?\n"],
         &["{ read v1; probe I1 \"$v1\"; } <<A <<B\nh a\nA\nh é b\nB\n", "read v2\nnext line\nprobe X2 \"$v1\" \"$v2\"\n"],
